@@ -2,6 +2,7 @@
   C16 — Completion proposals respect scope and syntactic position.  Property theorems only.
 -/
 import SplVerif.Model.Features
+import SplVerif.Lemmas.ScopeExact
 
 namespace Spl.C16
 open Spl.Feat
@@ -54,5 +55,32 @@ theorem top_level_only_starters (g : GlobalTable) :
       cases e with
       | procedure p => simp at h
       | type t => simp at h; subst h; exact hmain
+
+open Spl.ScopeExact in
+/-- **Statement and type positions of a well-typed program are scope-exact.**  For every program the typing
+    specification accepts, with the table `build` returns for it: at a statement position of procedure `pd` (the
+    handler passes the local table of the entry found under the procedure's name) the proposals are the four
+    statement starters, then exactly the parameters and the local variables `pd` declares, in order, then exactly
+    the predefined and the declared procedures — no name that is local to another procedure, none missing; at a
+    type position exactly `int` and the declared types. -/
+theorem statement_scope_exact (p : Program) (h : Typing.wellTyped p = true) :
+    ∃ table, build p = .ok (p, table) ∧
+      (searchTypes table).map (·.label) = "int".toList :: p.decls.filterMap declTypeName ∧
+      ∀ d ∈ p.decls, ∀ pd n, d.val = .proc pd → pd.name = some n →
+        ∃ pe, tblLookup table n.value = some (.procedure pe) ∧
+          (newStmt (some pe.localTable) table).map (·.label) =
+            ["while".toList, "if".toList, "if".toList, "while".toList] ++
+            (pd.params.filterMap paramName ++ pd.vars.filterMap varName) ++
+            (["printi", "printc", "readi", "readc", "exit", "time", "clearAll", "setPixel", "drawLine",
+              "drawCircle"].map String.toList ++ p.decls.filterMap declProcName) := by
+  obtain ⟨table, hb, hp, ht, hl⟩ := tables_exact p h
+  refine ⟨table, hb, ?_, ?_⟩
+  · rw [ht]; rfl
+  · intro d hd pd n hv hn
+    obtain ⟨pe, hlk, hnames⟩ := hl d hd pd n hv hn
+    refine ⟨pe, hlk, ?_⟩
+    rw [new_stmt_shape]
+    simp only [List.map_append, search_variables_labels, hnames, hp]
+    rfl
 
 end Spl.C16
